@@ -265,6 +265,10 @@ for _sfx in ("", "_async"):
         render_node_contract("C15", _sfx, _b, lambda: REPLAY)
 
 
+for _sfx in ("", "_async"):
+    call_node_contract("C15", _sfx, lambda: REPLAY)
+
+
 not_covered("C15", "environment and template globals are shared by design (the statement allows 'global data')", "the snippet tag and inline templates")
 
 bounded("C15", "bounded/C15.py")
